@@ -655,6 +655,15 @@ def check_conditioning(ctx, fi, be):
             used = U(c.func.value)
     ctx.ob('conditioning', fi, loop, used is not None, 'every generated column must be recorded as generated (`<used>.add(%s)`)' % col,
            construct='bookkeeping of generated columns')
+    # the loop generates EVERY remaining column: it walks the whole order except its first entry (generated before the loop)
+    it_ = loop.iter
+    if isinstance(it_, ast.Subscript) and isinstance(it_.slice, ast.Slice):
+        sl = it_.slice
+        lo_ok = sl.lower is not None and T(sl.lower) == '1' and sl.step is None
+        ctx.ob('conditioning', fi, loop, lo_ok and sl.upper is None,
+               'the column loop walks the whole (reversed) elimination order after its first entry: `%s`%s' % (U(it_), '' if sl.upper is None else
+               ' stops before the end of the walk - the attribute eliminated first is never generated and its column keeps the placeholder value'),
+               construct='columns generated by the loop')
     if used is None:
         return
     # the projection used inside the loop
